@@ -155,7 +155,12 @@ def check(ctx):
                 helpers = _helpers_in(p0)
             # mode: constants assigned to *._cliarg_action that are consistent with the path: take from the
             # statements lexically guarded by the path's conditions
-            mode = _mode_on_path(fn, p)
+            mode = None
+            for e_ in p.effects:
+                if isinstance(e_, ast.Assign) and isinstance(e_.targets[0], ast.Attribute) and e_.targets[0].attr == "_cliarg_action" and isinstance(const_value(e_.value), str):
+                    mode = const_value(e_.value)  # the last store on the path decides
+            if mode is None:
+                mode = _mode_on_path(fn, p)
             row = None
             for i, (cond, hs, md) in enumerate(rows):
                 if cond is None or (cond[0] == "+" and cond[1:] in conds) or (cond[0] == "-" and cond[1:] not in conds):
@@ -171,9 +176,9 @@ def check(ctx):
     sc = bp.func("BaseParser._subproc_cliargs")
     found = {}
     for n in ast.walk(sc):
-        if isinstance(n, ast.If) and isinstance(n.test, ast.Compare) and isinstance(n.test.left, ast.Name) and isinstance(n.test.ops[0], ast.Eq) and isinstance(const_value(n.test.comparators[0]), str):
+        if isinstance(n, ast.If) and isinstance(n.test, ast.Compare) and isinstance(n.test.left, ast.Name) and isinstance(n.test.ops[0], (ast.Eq, ast.NotEq)) and isinstance(const_value(n.test.comparators[0]), str):
             mode = const_value(n.test.comparators[0])
-            body = ast.Module(body=n.body, type_ignores=[])
+            body = ast.Module(body=n.body if isinstance(n.test.ops[0], ast.Eq) else n.orelse, type_ignores=[])
             names = {call_name(c) for c in calls_in(body, local=False)}
             if "call_split_lines" in names:
                 found[mode] = "call_split_lines"
